@@ -65,7 +65,12 @@ Definition corder_for (w : world) (o : op) (seen : obs) : list nat :=
       let cands := perms (sub_ids pre n) in
       match find (fun c => obs_eqb true (OTable (table_view (class_changed pre n c))) seen) cands with
       | Some c => c
-      | None => match cands with c :: _ => c | [] => [] end
+      | None =>
+          (* no order explains the observation: judge it against an order inside the guard if there is one *)
+          match find (fun c => g_step w o (rorder_for w o) c) cands with
+          | Some c => c
+          | None => match cands with c :: _ => c | [] => [] end
+          end
       end
   | _ => []
   end.
